@@ -205,6 +205,25 @@ def body(ctx: H.BaseCtx):
                         z, wit = ctx.is_zero(cf, rtol=rtol, scale=None)
                         if not z:
                             ctx.fail("degree", "element %d: remainder has degree >= %d = deg(divisor)" % (i, ddeg), wit)
+    # 4b. out= given (a pair of polynomial buffers that already hold terms of an earlier division): whatever the call does with
+    # them, the pair it *returns* is a quotient and remainder of this division
+    try:
+        x_ = numpoly.symbols(names[0])
+        stale = (5 * x_ ** 4 + 1, 2 * x_ ** 3 - x_)
+        bufs = tuple(numpoly.align_polynomials(s_ + q * 0 + r * 0, dividend, divisor)[0].copy() for s_ in stale)
+        try:
+            oq, orr = numpoly.poly_divmod(dividend, divisor, out=bufs)
+        except IterationBound:
+            raise
+        except Exception:
+            oq = None  # refusing the buffers is allowed
+        if oq is not None:
+            ctx.expect_model(M.amap(lambda a_, b_, c_: a_ * b_ + c_, M.to_model(oq), b_div, M.to_model(orr)), b_dvd, "identity q*divisor+r for the pair returned with out= buffers", rtol=rtol, atol=ATOL)
+    except IterationBound as e:
+        ctx.fail("nontermination", "poly_divmod(out=): %s" % e)
+        return
+    except Exception as e:
+        ctx.unexpected_exception(e, "poly_divmod(out=) driver")
     # 5. operator spellings return the same components (same path)
     try:
         spell = {
